@@ -135,6 +135,11 @@ class _SymSeq:
         return all(isinstance(x, int) for x in self.items)
 
     def __hash__(self) -> int:
+        # a value without symbolic items hashes like the real object (it may be handed to uninstrumented code
+        # that keeps it in a dict next to real bytes/str); a value with symbolic items gets the constant hash, so
+        # that native probes among such values compare with == (which forks)
+        if self._items is not None and self.is_concrete():
+            return hash(self.lower_concrete())
         if type(self).HASH_OK:
             return 7919
         if self.is_concrete():
